@@ -68,6 +68,9 @@ pub struct FCase {
     pub algo: Algo,
     pub shards: usize,
     pub ops: Vec<FOp>,
+    /// key -> hash mapping (collision runs of C17)
+    #[serde(default)]
+    pub hash: HashSpec,
 }
 
 // ---- harness futures ----------------------------------------------------------------------------------------
@@ -372,7 +375,7 @@ pub fn run_fetch_case(case: &FCase) -> FetchJudgement {
     let cache: Cache<u64, FVal, SpecHasher> = CacheBuilder::new(1 << 20)
         .with_shards(case.shards)
         .with_eviction_config(case.algo.eviction_config())
-        .with_hash_builder(SpecHasher::new(HashSpec::Identity))
+        .with_hash_builder(SpecHasher::new(case.hash.clone()))
         .build();
     let mut rt = Some(new_rt());
     let mut next_id = 1u64;
